@@ -83,7 +83,11 @@ func (d *DepositStore) AddNodeBalance(id store.NodeID, c *big.Int) error {
 	return d.AccountStore.AddNodeBalance(id, c)
 }
 
+var depositMu sync.Mutex // the free-running -race pass calls the world from several goroutines
+
 func (d *DepositStore) deposit(a store.Account) *big.Int {
+	depositMu.Lock()
+	defer depositMu.Unlock()
 	if v, ok := d.Deposits[a]; ok {
 		return new(big.Int).Set(v)
 	}
@@ -152,6 +156,8 @@ func NewPoolWorld(cfg PoolConfig) *PoolWorld {
 			if w.YieldPoints {
 				vsched.Yield("settle")
 			}
+			depositMu.Lock()
+			defer depositMu.Unlock()
 			n := len(w.Settles)
 			ok := w.SettleOK == nil || w.SettleOK(n)
 			w.Settles = append(w.Settles, Settlement{Account: account, Amount: amount.String(), NewBalance: newBalance.String(), Failed: !ok})
